@@ -307,7 +307,10 @@ def run(ctx: Ctx, rep: Report) -> None:
                 )
                 endpoints = sum(1 for e, _ in run_.events if e == "endpoint")
                 if timeouts == retries:
-                    ok = run_.end.startswith("raise:") and "Timeout" in run_.end and endpoints == retries
+                    rcls = ctx.exc_classes(send, run_.raised) if run_.raised is not None else None
+                    tcls_ = ctx.u.cls("puresnmp.exc:Timeout")
+                    is_timeout = ("Timeout" in run_.end) or bool(rcls and all(ctx.r.is_subclass(c, tcls_) for c in rcls))
+                    ok = run_.end.startswith("raise:") and is_timeout and endpoints == retries
                     want = f"raises Timeout after exactly {retries} endpoint(s)"
                 else:
                     ok = run_.end == "return" and endpoints == timeouts + 1
